@@ -391,15 +391,25 @@ func reifyGetField(
 // enterRef marks a reference as being unpacked into a value of type t until
 // the returned function is called; a reference that is reached again for the
 // same type while it is being unpacked leads back to a setting that contains
-// it.
+// it. A primitive unpacked into a list type is the only element of that list:
+// it is marked as well, a list type that contains itself has no value for it.
 func enterRef(opts *options, val value, t reflect.Type) (func(), Error) {
-	d, ok := val.(*cfgDynamic)
-	if !ok {
-		return func() {}, nil
+	_, isRef := val.(*cfgDynamic)
+	if !isRef {
+		if _, isSub := val.(cfgSub); isSub || val == nil {
+			return func() {}, nil
+		}
+		if k := chaseTypePointers(t).Kind(); k != reflect.Slice && k != reflect.Array {
+			return func() {}, nil
+		}
 	}
-	key := unpackingRef{d, t}
+
+	key := unpackingRef{val, t}
 	if _, active := opts.unpacking[key]; active {
-		ctx := d.Context()
+		if !isRef {
+			return nil, raiseConversion(opts, val, ErrTypeMismatch, t.String())
+		}
+		ctx := val.Context()
 		return nil, raiseCyclicErr(ctx.path("."))
 	}
 	opts.unpacking[key] = struct{}{}
